@@ -843,6 +843,10 @@ def run(chk, P):
     from rules import c05
     c05.r05_8(common.Proxy(chk, 'R01.12', only=lambda fn, cons: fn == 'mapping0_inverse'), P)
     chk.floor('R01.12', 1)
+    chk.rule('R01.13', 'a residue back end that skips the channels marked "do not decode" decodes exactly the remaining vectors: the count '
+             'handed to the shared residue walker is the compaction counter (shared implementation with C05 R05.13, decode side)')
+    c05.r05_13(common.Proxy(chk, 'R01.13', only=lambda fn, cons: fn.endswith('_inverse')), P)
+    chk.floor('R01.13', 2)
     chk.notes.append(f'R01.2 compared {ncon} table constants')
     chk.trusted += ['clang 14 front end and constant evaluator', 'the specification sources doc/*.tex of the repository are the oracle',
                     'width extraction from the TeX text (engine/spec.py) recognises the phrasings used in the pinned documents; '
